@@ -9,7 +9,7 @@
      prepare <src>          -> ok <chain> <ops> <ir> <temporaries> | err <class>
      generate <type> <src>  -> ok <output bytes> | err <class>
      calc <expr>            -> ok <hex value> | err <class>
-   A script with a shift amount above 4096 is not evaluated by either side (one chain element per
+   A script with a shift amount above 512 is not evaluated by either side (one chain element per
    doubling): every entry point after `translate` answers `ok toolarge` for it.
 
    The real binary:
@@ -18,6 +18,11 @@
      cli <eval|fmt|fmtb> <stdin|file|nofile> <src>
      cli gen <type or !> <stdin|file|nofile> <src>
                             -> ok 2 | ok 1 | ok 0 [<stdout bytes> for eval/fmt/fmtb/gen]
+     cli deep <eval|fmt|fmtb|gen> <n> <kind>        a script nested n deep on standard input -> ok <exit>
+   and, below the command line:
+     lib <src>              every script entry point on one text: P:..|T:..|L:..|B:..|R:..|D:..|G:..
+     deep <n> <kind>        the same on a script nested n deep -> ok (no entry point panics)
+     parallel <limit> <k>   exec.Parallel.Execute with that limit on k algorithms -> ok <k>
    Flag syntax (Go's flag/strconv, not part of the anchored code) is classified here, for the shapes the
    harness generates: an int is [+-]?digits within int64, a float is nan | [+-]?inf(inity) |
    [+-]?digits[.digits][e[+-]digits]; anything else is a usage error.  The ensemble of `search` is
@@ -40,9 +45,12 @@ Definition ens_binary (n : Z) : list (outcome (list op)) := [obind (rtl_binary n
 Definition print_exit (e : exit_class) : list N :=
   match e with Exit0 => $"0" | Exit1 => $"1" | Exit2 => $"2" end.
 
+(* scripts with a shift amount above 512 are not evaluated by this check *)
+Definition script_big (c : script) : bool := existsb (fun s => 512 <? expr_max_shift (sexpr s)) c.
+
 Definition huge_or {A} (src : list N) (k : unit -> outcome A) (pr : A -> list N) : list N :=
   match parse src with
-  | Ok c => if script_huge c then r_ok $"toolarge" else print_outcome pr (k tt)
+  | Ok c => if script_big c then r_ok $"toolarge" else print_outcome pr (k tt)
   | _ => print_outcome pr (k tt)
   end.
 
@@ -161,15 +169,111 @@ Definition print_cli (stdout : option (outcome (list N))) (o : outcome exit_clas
   | _ => print_outcome print_exit o
   end.
 
-(* eval / fmt / fmtb / gen on a script *)
-Definition script_cli (mode : list N) (src : list N) (c : cmd) (out : unit -> outcome (list N)) : list N :=
+(* eval / fmt / fmtb / gen on a script; guard: the command evaluates the script *)
+Definition script_cli (guard : bool) (mode : list N) (src : list N) (c : cmd) (out : unit -> outcome (list N)) : list N :=
   if str_eqb mode $"nofile" then print_cli None (run_invocation ens_binary INoFile)
   else if str_eqb mode $"stdin" || str_eqb mode $"file" then
     match parse src with
-    | Ok t => if script_huge t then r_ok $"toolarge" else print_cli (Some (out tt)) (cli ens_binary c)
+    | Ok t => if guard && script_big t then r_ok $"toolarge" else print_cli (Some (out tt)) (cli ens_binary c)
     | _ => print_cli (Some (out tt)) (cli ens_binary c)
     end
   else r_badcase.
+
+(* ---- lib <src>: every script entry point, one field each ---- *)
+Definition slash (l : list N) : list N := map (fun c => if c =? 32 then 47 else c) l.
+Definition field (tag : list N) (r : list N) : list N := tag ++ [58] ++ slash r.
+
+Definition r_load (s : list N) : list N :=
+  huge_or s (fun _ => lib_load s) (fun r => let '(_, p, ch) := r in enc_chain ch ++ [sp] ++ enc_ops p).
+Definition r_build (s : list N) : list N :=
+  huge_or s (fun _ => lib_build s) (fun t => enc_script t ++ [sp] ++ print_bytes (print_script t)).
+Definition r_prepare (s : list N) : list N :=
+  huge_or s (fun _ => lib_prepare s)
+    (fun d => enc_chain (g_chain d) ++ [sp] ++ enc_ops (g_ops d) ++ [sp] ++ enc_ir (g_prog d) ++ [sp] ++ show_temps (g_temps d)).
+Definition r_generate (typ s : list N) : list N := huge_or s (fun _ => lib_generate typ s) print_bytes.
+
+Definition lib_fields (s : list N) : list (list N) :=
+  [ field $"P" (print_outcome enc_script (lib_parse s));
+    field $"T" (print_outcome enc_ir (lib_translate s));
+    field $"L" (r_load s);
+    field $"B" (r_build s);
+    field $"R" (print_outcome print_bytes (lib_print s));
+    field $"D" (r_prepare s);
+    field $"G" (r_generate $"listing" s) ].
+Definition run_lib (s : list N) : list N := r_ok (join [124] (lib_fields s)).
+
+(* ---- deep <n> <kind>: nested scripts; the model parser is the un-memoised PEG (exponential in the
+   depth), so it takes part up to depth 12; beyond that (to 5000) the case is an implementation-only
+   check and the expected line is "ok" ---- *)
+Fixpoint rep (n : nat) (s : list N) : list N := match n with O => [] | S k => s ++ rep k s end.
+Definition deep_src (n : nat) (kind : list N) : option (list N) :=
+  if str_eqb kind $"paren" then Some ($"return " ++ rep n $"(" ++ $"1 + 1" ++ rep n $")")
+  else if str_eqb kind $"radd" then Some ($"return " ++ rep n $"1 + (" ++ $"1 + 1" ++ rep n $")")
+  else if str_eqb kind $"dbl" then Some ($"return " ++ rep n $"2*(" ++ $"1" ++ rep n $")")
+  else if str_eqb kind $"shl" then Some ($"return " ++ rep n $"(" ++ $"1" ++ rep n $" << 1)")
+  else if str_eqb kind $"open" then Some ($"return " ++ rep n $"(" ++ $"1")
+  else if str_eqb kind $"brack" then Some ($"return " ++ rep n $"[" ++ $"1" ++ rep n $"]")
+  else None.
+
+Definition answered {A} (o : outcome A) : bool := match o with Ok _ | Err _ => true | _ => false end.
+Definition run_deep (n : N) (kind : list N) : list N :=
+  match deep_src (N.to_nat n) kind with
+  | None => r_badcase
+  | Some s =>
+      if n <=? 12 then
+        if answered (lib_parse s) && answered (lib_translate s) && answered (lib_load s) && answered (lib_build s)
+           && answered (lib_print s) && answered (lib_prepare s) && answered (lib_generate $"listing" s)
+        then $"ok" else r_panic $"model"
+      else if n <=? 5000 then $"ok"
+      else r_badcase
+  end.
+
+(* ---- cli deep <eval|fmt|fmtb|gen> <n> <kind>: the binary on a nested script, exit class only.  Up to depth
+   12 through the model parser; beyond, the model starts from the syntax tree the text denotes ---- *)
+Fixpoint iter_expr (n : nat) (f : expr -> expr) (e : expr) : expr :=
+  match n with O => e | S k => f (iter_expr k f e) end.
+Definition one : expr := EOperand 0.
+Definition deep_tree (n : nat) (kind : list N) : option (option script) :=
+  let ret e := Some (Some [mkStmt [] e]) in
+  if str_eqb kind $"paren" then ret (EAdd one one)
+  else if str_eqb kind $"radd" then ret (iter_expr n (fun e => EAdd one e) (EAdd one one))
+  else if str_eqb kind $"dbl" then ret (iter_expr n EDouble one)
+  else if str_eqb kind $"shl" then ret (iter_expr n (fun e => EShift e 1) one)
+  else if str_eqb kind $"open" then match n with O => ret one | _ => Some None end
+  else if str_eqb kind $"brack" then match n with O => ret one | 1%nat => ret (EOperand 1) | _ => Some None end
+  else None.
+
+Definition exit_only {A} (o : outcome A) : list N := print_outcome print_exit (or_fail o (fun _ => Ok Exit0)).
+
+Definition run_cli_deep (sub : list N) (n : N) (kind : list N) : list N :=
+  let on_tree (f : script -> outcome (list N)) :=
+    match deep_tree (N.to_nat n) kind with
+    | Some (Some t) => exit_only (f t)
+    | Some None => r_ok (print_exit Exit1)
+    | None => r_badcase
+    end in
+  let on_src (f : list N -> outcome (list N)) :=
+    match deep_src (N.to_nat n) kind with
+    | Some s => exit_only (f s)
+    | None => r_badcase
+    end in
+  if 5000 <? n then r_badcase
+  else if n <=? 12 then
+    if str_eqb sub $"eval" then on_src eval_out
+    else if str_eqb sub $"fmt" then on_src (fmt_out false)
+    else if str_eqb sub $"fmtb" then on_src (fmt_out true)
+    else if str_eqb sub $"gen" then on_src (gen_out $"listing")
+    else r_badcase
+  else
+    if str_eqb sub $"eval" then on_tree eval_tree
+    else if str_eqb sub $"fmt" then on_tree (fmt_tree false)
+    else if str_eqb sub $"fmtb" then on_tree (fmt_tree true)
+    else if str_eqb sub $"gen" then on_tree (gen_tree $"listing")
+    else r_badcase.
+
+(* ---- parallel <limit> <k>: exec.Parallel.Execute on k algorithms ---- *)
+Definition run_parallel (limit : Z) (k : N) : list N :=
+  print_outcome (fun rs => print_nat (length rs)) (par_execute limit (repeat tt (N.to_nat k))).
 
 Definition run (line : list N) : list N :=
   match split sp line with
@@ -179,41 +283,44 @@ Definition run (line : list N) : list N :=
       | Some s =>
           if str_eqb f $"parse" then print_outcome enc_script (lib_parse s)
           else if str_eqb f $"translate" then print_outcome enc_ir (lib_translate s)
-          else if str_eqb f $"load" then
-            huge_or s (fun _ => lib_load s) (fun r => let '(_, p, ch) := r in enc_chain ch ++ [sp] ++ enc_ops p)
-          else if str_eqb f $"build" then
-            huge_or s (fun _ => lib_build s) (fun t => enc_script t ++ [sp] ++ print_bytes (print_script t))
+          else if str_eqb f $"load" then r_load s
+          else if str_eqb f $"build" then r_build s
           else if str_eqb f $"print" then print_outcome print_bytes (lib_print s)
-          else if str_eqb f $"prepare" then
-            huge_or s (fun _ => lib_prepare s)
-              (fun d => enc_chain (g_chain d) ++ [sp] ++ enc_ops (g_ops d) ++ [sp] ++ enc_ir (g_prog d) ++ [sp] ++ show_temps (g_temps d))
+          else if str_eqb f $"prepare" then r_prepare s
+          else if str_eqb f $"lib" then run_lib s
           else if str_eqb f $"calc" then print_outcome print_hexZ (lib_calc s)
           else r_badcase
       end
   | [f; a; b] =>
       if str_eqb f $"generate" then
         match parse_bytes a, parse_bytes b with
-        | Some typ, Some s => huge_or s (fun _ => lib_generate typ s) print_bytes
+        | Some typ, Some s => r_generate typ s
         | _, _ => r_badcase
         end
+      else if str_eqb f $"deep" then
+        match parse_decN a with Some n => run_deep n b | None => r_badcase end
+      else if str_eqb f $"parallel" then
+        match parse_decZ a, parse_decN b with Some l, Some k => run_parallel l k | _, _ => r_badcase end
       else r_badcase
   | [f; sub; a; b] =>
       if str_eqb f $"cli" then
         match parse_bytes b with
         | None => r_badcase
         | Some src =>
-            if str_eqb sub $"eval" then script_cli a src (Eval src) (fun _ => eval_out src)
-            else if str_eqb sub $"fmt" then script_cli a src (Fmt false src) (fun _ => fmt_out false src)
-            else if str_eqb sub $"fmtb" then script_cli a src (Fmt true src) (fun _ => fmt_out true src)
+            if str_eqb sub $"eval" then script_cli true a src (Eval src) (fun _ => eval_out src)
+            else if str_eqb sub $"fmt" then script_cli false a src (Fmt false src) (fun _ => fmt_out false src)
+            else if str_eqb sub $"fmtb" then script_cli true a src (Fmt true src) (fun _ => fmt_out true src)
             else r_badcase
         end
       else r_badcase
   | [f; sub; t; a; b] =>
-      if str_eqb f $"cli" && str_eqb sub $"gen" then
+      if str_eqb f $"cli" && str_eqb sub $"deep" then
+        match parse_decN a with Some n => run_cli_deep t n b | None => r_badcase end
+      else if str_eqb f $"cli" && str_eqb sub $"gen" then
         match opt_arg t, parse_bytes b with
         | Some ty, Some src =>
             let typ := match ty with None => $"listing" | Some x => x end in
-            script_cli a src (Gen typ src) (fun _ => gen_out typ src)
+            script_cli true a src (Gen typ src) (fun _ => gen_out typ src)
         | _, _ => r_badcase
         end
       else r_badcase
